@@ -39,7 +39,8 @@ CONSTANTS MinCycle, MaxCycle,  \* cycle lengths
           Dev,
           Emit
 
-DevNames == {"DevTruncDiv", "DevNoTrailingTolerance"}
+\* DevMemoisedLastWindow only exists in the stateful wrapper WindowSeq.tla (a calculator that remembers its last answer)
+DevNames == {"DevTruncDiv", "DevNoTrailingTolerance", "DevMemoisedLastWindow"}
 ASSUME Dev \subseteq DevNames
 
 Vectors == {v \in [c : MinCycle..MaxCycle, w : 1..MaxCycle, tol : 0..MaxTol, off : 0..MaxCycle,
